@@ -286,6 +286,32 @@ func genC08(rt *rapid.T, thorough bool) c08Case {
 		}
 		g := model.NewGen(rt, cfg)
 		root := g.GenNode(cfg.MaxDepth, true)
+		nestedDefault := !failingPost && rapid.IntRange(0, 4).Draw(rt, "nesteddefault") == 0
+		if nestedDefault {
+			// a list of lists whose Default is applied to every call that brings no list, with PostTransforms that
+			// write to the elements they are given: each call works on its own copy of the default, all the way down
+			leaf := &model.Node{Kind: model.KString, Posts: []model.PostSpec{{Behaviour: "mutate"}}}
+			if rapid.Bool().Draw(rt, "ndint") {
+				leaf = &model.Node{Kind: model.KInt, Posts: []model.PostSpec{{Behaviour: "mutate"}}}
+			}
+			mk := func(i int) model.Val {
+				if leaf.Kind == model.KInt {
+					return model.Int(i + 1)
+				}
+				return model.Str(fmt.Sprintf("d%d", i))
+			}
+			def := model.List(model.List(mk(0), mk(1)), model.List(mk(2)), model.List(mk(3), mk(4), mk(5)))
+			inner := &model.Node{Kind: model.KSlice, Elem: leaf}
+			if rapid.Bool().Draw(rt, "ndrev") {
+				inner.Posts = []model.PostSpec{{Behaviour: "mutate"}}
+			}
+			lists := &model.Node{Kind: model.KSlice, Elem: inner, Def: &def}
+			if rapid.Bool().Draw(rt, "ndfield") {
+				root = &model.Node{Kind: model.KStruct, Fields: []model.Field{{Key: "grants", Node: lists}, {Key: "name", Node: &model.Node{Kind: model.KString}}}}
+			} else {
+				root = lists
+			}
+		}
 		if failingPost {
 			var nodes []*model.Node
 			root.Walk(func(n *model.Node) {
@@ -299,6 +325,21 @@ func genC08(rt *rapid.T, thorough bool) c08Case {
 		root.Number()
 		s := c08Schema{Root: root, Mode: mode}
 		for k, n := 0, rapid.IntRange(2, 5).Draw(rt, "ninputs"); k < n; k++ {
+			if nestedDefault {
+				// no list at all (the Default applies), or a list of the caller's own
+				in := model.Val{T: "list"}
+				if k%3 == 2 {
+					in = model.List(model.List(model.Str("7")))
+					if root.Kind == model.KSlice && root.Elem.Elem.Kind == model.KInt || root.Kind == model.KStruct && root.Fields[0].Node.Elem.Elem.Kind == model.KInt {
+						in = model.List(model.List(model.Int(7)))
+					}
+				}
+				if root.Kind == model.KStruct {
+					in = model.Map(model.KV{K: "grants", V: in}, model.KV{K: "name", V: model.Str("n")})
+				}
+				s.Inputs = append(s.Inputs, in)
+				continue
+			}
 			typed := g.GenTyped(root)
 			if mode == "parse" {
 				in, _ := g.Render(root, typed, "root")
